@@ -174,3 +174,169 @@ def ref_split_lines(text: str):
     if cur:
         lines.append(''.join(cur))
     return lines
+
+
+# ---- roles, inversion ----------------------------------------------------------
+
+class RefModel:
+    """Reference notion of a semantic model: a set of role patterns (each a
+    full-match regular expression, as documented for Model(roles=...)), the
+    top and concept roles, and whether inverted roles are deinverted at all
+    (False for the documented no-op model)."""
+
+    def __init__(self, role_patterns=(), deinverts=True,
+                 normalizations=None):
+        import re
+        self._res = [re.compile(p) for p in role_patterns]
+        self.literals = (':TOP', ':instance')
+        self.deinverts = deinverts
+        self.normalizations = dict(normalizations or {})
+
+    def defines(self, role: str) -> bool:
+        if role in self.literals:
+            return True
+        for r in self._res:
+            if r.fullmatch(role) and not role.endswith('\n'):
+                return True
+        return False
+
+    def is_inverted(self, role: str) -> bool:
+        return role.endswith('-of') and not self.defines(role)
+
+    def invert_role(self, role: str) -> str:
+        if self.is_inverted(role):
+            return role[:len(role) - 3]
+        return role + '-of'
+
+
+def split_role_alignment(role: str):
+    """':ARG0~e.1' -> (':ARG0', 'e.1')   (no alignment -> None)"""
+    i = role.find('~')
+    if i < 0:
+        return role, None
+    return role[:i], role[i + 1:]
+
+
+def split_atom_alignment(atom):
+    """Alignment suffix of an atom; a '~' inside a quoted string is content."""
+    if not isinstance(atom, str) or '~' not in atom:
+        return atom, None
+    if atom.startswith('"'):
+        j = len(atom) - 1
+        while j >= 0 and atom[j] != '"':
+            j -= 1
+        # j is the closing quote
+        if j + 1 < len(atom):
+            return atom[:j + 1], atom[j + 1:].lstrip('~')
+        return atom, None
+    i = atom.find('~')
+    return atom[:i], atom[i + 1:]
+
+
+def parse_alignment(text):
+    """'e.2,3' -> (prefix 'e.', (2, 3));  '1' -> (None, (1,))"""
+    prefix = None
+    if text and text[0].isalpha():
+        k = 2 if text[1:2] == '.' else 1
+        prefix, text = text[:k], text[k:]
+    return prefix, tuple(int(x) for x in text.split(','))
+
+
+def tree_variables(node):
+    out = []
+    var, branches = node
+    if var is not None:
+        out.append(var)
+    for _, tgt in branches:
+        if isinstance(tgt, tuple):
+            out.extend(tree_variables(tgt))
+    return out
+
+
+def ref_interpret(node, model: RefModel):
+    """Documented reading of a tree (docs/notation.rst, structures.rst):
+
+    per node one instance triple (null concept, listed first, if none is
+    written) and one triple per branch in depth-first order; an inverted
+    role on a branch to a node or to another node's variable is deinverted
+    once with source and target swapped (never when the model does not
+    deinvert); an inverted role on a constant is left as written; alignment
+    suffixes are not part of the triple.
+
+    Returns (top, triples, info) where info[i] = dict(ctx=variable of the
+    node whose branch wrote triple i, pushed=variable of the node the branch
+    opened or None, role_aln, tgt_aln, written_inverted=bool).
+    """
+    variables = set(tree_variables(node))
+    triples = []
+    info = []
+
+    def walk(n):
+        var, branches = n
+        has_concept = False
+        for role, _ in branches:
+            if split_role_alignment(role)[0] == '/':
+                has_concept = True
+        if not has_concept:
+            triples.append((var, ':instance', None))
+            info.append({'ctx': var, 'pushed': None, 'role_aln': None,
+                         'tgt_aln': None, 'written_inverted': False})
+        for role, tgt in branches:
+            role, role_aln = split_role_alignment(role)
+            if role == '/':
+                role = ':instance'
+            if isinstance(tgt, tuple):
+                tvar = tgt[0]
+                inv = model.deinverts and model.is_inverted(role)
+                if inv:
+                    triples.append((tvar, model.invert_role(role), var))
+                else:
+                    triples.append((var, role, tvar))
+                info.append({'ctx': var, 'pushed': tvar,
+                             'role_aln': role_aln, 'tgt_aln': None,
+                             'written_inverted': inv})
+                walk(tgt)
+            else:
+                tgt, tgt_aln = split_atom_alignment(tgt)
+                inv = (role != ':instance' and tgt in variables
+                       and model.deinverts and model.is_inverted(role))
+                if inv:
+                    triples.append((tgt, model.invert_role(role), var))
+                else:
+                    triples.append((var, role, tgt))
+                info.append({'ctx': var, 'pushed': None,
+                             'role_aln': role_aln, 'tgt_aln': tgt_aln,
+                             'written_inverted': inv})
+
+    walk(node)
+    return node[0], triples, info
+
+
+def weakly_connected(variables, triples, top):
+    """Union-find: is every variable weakly connected to *top* through
+    triples whose source and target are both variables?"""
+    parent = {v: v for v in variables}
+
+    def find(x):
+        while parent[x] != x:
+            parent[x] = parent[parent[x]]
+            x = parent[x]
+        return x
+
+    for s, r, t in triples:
+        if r == ':instance':
+            continue
+        if s in parent and isinstance(t, str) and t in parent:
+            parent[find(s)] = find(t)
+    if top not in parent:
+        return False
+    root = find(top)
+    for v in variables:
+        if find(v) != root:
+            return False
+    return True
+
+
+def written_form(x):
+    """Constants are compared by their written form."""
+    return None if x is None or x == '' else str(x)
